@@ -487,6 +487,34 @@ def kind_differs(c):
     return any(n in b and b[n] != a[n] for n in a)
 
 
+def default_leaves(s, out):
+    """every str / number occurring in a field default of the schema"""
+    def leaves(d):
+        if isinstance(d, dict):
+            for x in d.values():
+                leaves(x)
+        elif isinstance(d, list):
+            for x in d:
+                leaves(x)
+        elif isinstance(d, (str, int, float)) and not isinstance(d, bool):
+            out.append(d)
+    if isinstance(s, list):
+        for b in s:
+            default_leaves(b, out)
+    elif isinstance(s, dict):
+        t = s.get("type")
+        if t in ("record", "error"):
+            for f in s.get("fields", []):
+                if "default" in f:
+                    leaves(f["default"])
+                default_leaves(f["type"], out)
+        elif t == "array":
+            default_leaves(s["items"], out)
+        elif t == "map":
+            default_leaves(s["values"], out)
+    return out
+
+
 def classify(c, res, spec):
     """signature of a disagreement between the implementation (res) and the specification (spec text)"""
     ic = impl_class(res)
@@ -527,14 +555,16 @@ def classify(c, res, spec):
     if d is None:
         return "C08:harness:no-difference"
     _, a, b = d
-    if a[0] == "S" and b[0] == "B" or a[0] == "B" and b[0] == "S":
-        if "default" in steps and a[0] == "S" and not f6_shape(c.r_raw):
+    dl = default_leaves(c.r_raw, [])
+    if a[0] == "S" and b[0] == "B":
+        s_impl = bytes.fromhex(a[1]).decode("utf-8", "surrogatepass")
+        if s_impl in dl and not (f6_shape(c.r_raw) and bytes.fromhex(b[1]) == s_impl.encode("utf-8") and "default" not in steps):
             return "C08:read_record:default:bytes-or-fixed-default-returned-as-str"
-        if f6_shape(c.r_raw):
-            return F6_SIG
-        return "C08:read_record:default:bytes-or-fixed-default-returned-as-str" if a[0] == "S" else "C08:read_data:value-differs:B-vs-S"
+        return F6_SIG if f6_shape(c.r_raw) else "C08:read_data:value-differs:S-vs-B"
+    if a[0] == "B" and b[0] == "S":
+        return F6_SIG if f6_shape(c.r_raw) else "C08:read_data:value-differs:B-vs-S"
     if a[0] == "I" and b[0] == "D":
-        if "default" in steps:
+        if a[1] in dl:
             return "C08:read_record:default:json-number-or-object-returned-unconverted"
         return F6_SIG if f6_shape(c.r_raw) else "C08:read_data:value-differs:I-vs-D"
     if a[0] == "D" and b[0] == "I":
